@@ -85,7 +85,20 @@ func scC13Panic(w *World, a Args, rng *rand.Rand) error {
 	boom := func(tok int) {
 		switch kind {
 		case "unary":
-			target.Call(context.Background(), "panic", tok, payload)
+			if a.Bool("cancelafter") {
+				// the caller gives up first; the handler notices and panics only then: its error reply is still owed
+				ctx, cancel := context.WithCancel(context.Background())
+				go func() {
+					w.WaitRunning(tok, time.Second)
+					time.Sleep(2 * time.Millisecond)
+					w.Rec.Emit("CallerCancel", "call", tok)
+					cancel()
+				}()
+				target.CallT2(ctx, "panic", tok, patience(3*time.Second), "aftercancel:"+payload)
+				cancel()
+			} else {
+				target.Call(context.Background(), "panic", tok, payload)
+			}
 		case "notify":
 			target.Call(context.Background(), "panicnotify", tok, payload)
 		case "sub":
